@@ -5,12 +5,15 @@ import (
 	"fmt"
 	"hash/fnv"
 	"math/rand"
+	"os"
 	"regexp"
 	"sort"
+	"strconv"
 	"strings"
 
 	"Havoc/pkg/profile/yaotl/hcldec"
 	"Havoc/pkg/profile/yaotl/hclwrite"
+	"github.com/zclconf/go-cty/cty"
 
 	"verifh/lib"
 )
@@ -22,7 +25,7 @@ func init() { lib.Register("C19", run) }
 // ---------------------------------------------------------------------------------
 
 // canonical order of rewrite operations inside a form's signature
-var opOrder = []string{"json", "split", "dyn", "reorder", "style", "format", "expand", "merge1"}
+var opOrder = []string{"json", "split", "dyn", "dyn-attrs", "reorder", "style", "format", "expand", "merge1"}
 
 func normOps(ops []string) []string {
 	set := map[string]bool{}
@@ -62,8 +65,8 @@ func buildForm(name string, ops []string, s *Schema, items []*Item, r *rand.Rand
 	if has(ops, "reorder") {
 		its = reorderDeep(r, its)
 	}
-	if has(ops, "dyn") {
-		d := &dynCtx{r: r, stats: dynStats{}}
+	if has(ops, "dyn") || has(ops, "dyn-attrs") {
+		d := &dynCtx{r: r, stats: dynStats{}, attrsIter: has(ops, "dyn-attrs")}
 		its = d.dynamize(its, s, nil)
 		for k, v := range d.stats {
 			stats[k] += v
@@ -143,7 +146,28 @@ func randomMix(r *rand.Rand) []string {
 	return normOps(ops)
 }
 
-func plansFor(r *rand.Rand, valid bool) []formPlan {
+// hasAttrsBlock: some block read with JustAttributes carries an attribute.
+func hasAttrsBlock(s *Schema, items []*Item) bool {
+	for _, it := range items {
+		if it.K != "block" {
+			continue
+		}
+		bs := s.block(it.Name)
+		if bs == nil {
+			continue
+		}
+		if bs.Mode == "attrs" {
+			if len(it.Body) > 0 {
+				return true
+			}
+		} else if hasAttrsBlock(bs.Body, it.Body) {
+			return true
+		}
+	}
+	return false
+}
+
+func plansFor(r *rand.Rand, valid bool, attrsProbe bool) []formPlan {
 	if valid {
 		p := []formPlan{
 			{"native", nil},
@@ -157,6 +181,11 @@ func plansFor(r *rand.Rand, valid bool) []formPlan {
 		}
 		for i := 0; i < 2; i++ {
 			p = append(p, formPlan{fmt.Sprintf("mix%d", i), randomMix(r)})
+		}
+		if attrsProbe && r.Intn(8) == 0 {
+			// outside the domain on this tree (known finding): iterator values inside a
+			// block that is read with JustAttributes
+			p = append(p, formPlan{"dyn-attrs", []string{"dyn-attrs"}})
 		}
 		return p
 	}
@@ -383,6 +412,7 @@ func judgeForm(env *caseEnv, f *Form, items []*Item, v variant, c *lib.Ctx) (*fo
 			return out, fails
 		}
 	}
+	extras := env.s.Extras
 	var parsed *parsedForm
 	if pv, stack := lib.Guard(func() { parsed = parseForm(f) }); pv != nil {
 		add("parse", lib.PanicSig(pv, stack), fmt.Sprintf("parsing form %s panics: %v", f.Name, pv))
@@ -392,9 +422,9 @@ func judgeForm(env *caseEnv, f *Form, items []*Item, v variant, c *lib.Ctx) (*fo
 		var res *DecResult
 		pv, stack := lib.Guard(func() {
 			if dec == "hcldec" {
-				res = decodeSpec(f, parsed, env.spec)
+				res = decodeSpec(f, parsed, env.spec, env.s.Partial, extras)
 			} else {
-				res = decodeTags(f, parsed, env.lay)
+				res = decodeTags(f, parsed, env.lay, env.s.Partial, extras)
 			}
 		})
 		if pv != nil {
@@ -424,8 +454,14 @@ func judgeForm(env *caseEnv, f *Form, items []*Item, v variant, c *lib.Ctx) (*fo
 				pv2, stack2 := lib.Guard(func() {
 					if dec == "hcldec" {
 						m = checkCtyBody(env.s, nil, items, nil, res.cv, "")
+						if m == nil && env.s.Partial {
+							m = checkExtrasCty(env.s, items, res.xv)
+						}
 					} else {
 						m = checkGoBody(env.s, env.lay, items, nil, res.gv, "")
+						if m == nil && env.s.Partial {
+							m = checkExtrasGo(env.s, items, res.xg)
+						}
 					}
 				})
 				if pv2 != nil {
@@ -454,10 +490,20 @@ func judgeForm(env *caseEnv, f *Form, items []*Item, v variant, c *lib.Ctx) (*fo
 
 func fillValues(o *formOutcome) {
 	if o.Spec != nil && o.Spec.Parsed && o.Spec.Panic == "" {
-		lib.Guard(func() { o.Spec.Value = renderCty(o.Spec.cv) })
+		lib.Guard(func() {
+			o.Spec.Value = renderCty(o.Spec.cv)
+			if o.Spec.xv != cty.NilVal {
+				o.Spec.Value += " | stage two: " + renderCty(o.Spec.xv)
+			}
+		})
 	}
 	if o.Tags != nil && o.Tags.Parsed && o.Tags.Panic == "" {
-		lib.Guard(func() { o.Tags.Value = renderGo(o.Tags.gv) })
+		lib.Guard(func() {
+			o.Tags.Value = renderGo(o.Tags.gv)
+			if o.Tags.xg.IsValid() {
+				o.Tags.Value += " | stage two: " + renderGo(o.Tags.xg)
+			}
+		})
 	}
 }
 
@@ -471,7 +517,7 @@ func subSeed(seed int64, name string) int64 {
 // in (schema, items, variant, seed).
 func evalCase(env *caseEnv, items []*Item, v variant, seed int64, c *lib.Ctx, stats map[string]int) ([]*formOutcome, []failure) {
 	pr := rand.New(rand.NewSource(subSeed(seed, "plans")))
-	plans := plansFor(pr, v.Class == "valid")
+	plans := plansFor(pr, v.Class == "valid", v.Class == "valid" && hasAttrsBlock(env.s, items))
 	var outs []*formOutcome
 	var fails []failure
 	for _, p := range plans {
@@ -593,7 +639,7 @@ func shrinkCandidates(s *Schema, items []*Item) [][]*Item {
 }
 
 func pruneSchema(s *Schema, items []*Item) *Schema {
-	n := &Schema{}
+	n := &Schema{Partial: s.Partial, Extras: s.Extras, RemainKind: s.RemainKind}
 	for _, a := range s.Attrs {
 		if len(attrsOf(items, a.Name)) > 0 || a.Mode == "req" {
 			n.Attrs = append(n.Attrs, a)
@@ -647,10 +693,10 @@ func shrink(s *Schema, items []*Item, v variant, seed int64, want map[string]boo
 		}
 		return false
 	}
-	for changed := true; changed && tries < 400; {
+	for changed := true; changed && tries < shrinkTries; {
 		changed = false
 		for _, cand := range shrinkCandidates(s, items) {
-			if tries >= 400 {
+			if tries >= shrinkTries {
 				break
 			}
 			if still(s, cand) {
@@ -678,16 +724,27 @@ func run(c *lib.Ctx) {
 	c.Assume(
 		"go-cty (types, conversion, gocty) is trusted: it is a third-party dependency, not the code under test",
 		"the harness printers are written from hclsyntax/spec.md and json/spec.md and never call the code under test; hclwrite.Format is code under test and is applied as one of the rewrites",
-		"numbers: a decoded number must equal the literal's rational exactly or within 2^-400 relative error (decimal fractions have no finite binary expansion)",
-		"domain restrictions: strings are NFC; no \\u escapes in native strings (dialect rejects them); explicit null only where both decoders define it; "+
-			"dynamic content for blocks read with JustAttributes only with constant values (see known finding); JSON block bodies are objects, never nested arrays; "+
-			"missing-label faults only on blocks that carry a primitive-valued attribute (JSON cannot tell a label level from a body otherwise)",
+		"numbers: a decoded number must equal the literal's rational exactly or within 2^-400 relative error (decimal fractions have no finite binary expansion); no negative zero",
+		"both decoders get a non-nil empty EvalContext, so JSON strings are templates (json/spec.md, full expression mode) exactly like native quoted strings",
+		"domain restrictions: strings are NFC; no \\u escapes in native strings (dialect rejects them); heredocs only for text ending in a newline and never with CRLF line ends; "+
+			"explicit null only where both decoders define it (pointer, slice, map, cty.Value targets); attribute values are written in the kind the schema asks for (no string<->number conversions); "+
+			"set/list/map-typed block results only over statically typed bodies; two-label map blocks not inside list/set/map blocks (side finding: BlockMapSpec returns map(T) for no blocks); "+
+			"dynamic content for blocks read with JustAttributes only with constant values in the regular forms (the probe form dyn-attrs goes outside: known finding); "+
+			"JSON block bodies are objects, never nested arrays; missing-label faults only on blocks that carry a primitive-valued attribute (JSON cannot tell a label level from a body otherwise); "+
+			"for_each collections are literals (no variables, no functions, no unknown values); remain into a map only for block bodies without nested blocks (native JustAttributes rejects bodies with blocks); "+
+			"top-level partial decoding is two-stage with a strict second stage over the extra attributes",
+		"gohcl has no defaults: an absent optional attribute must leave the zero value / nil, hcldec must return the DefaultSpec literal or a typed null",
 	)
 	if c.Replay != nil {
 		replay(c)
 		return
 	}
 	n := c.N(15000, 1000000)
+	// development aid for mutation validation on a loaded machine: C19_DIV=k runs 1/k of
+	// the tier's cases (the driver then reports BROKEN-RUN unless a violation is found)
+	if d, err := strconv.Atoi(os.Getenv("C19_DIV")); err == nil && d > 1 {
+		n = (n + d - 1) / d
+	}
 	const perSchema = 3
 	stats := map[string]int{}
 	var env *caseEnv
@@ -723,6 +780,13 @@ func run(c *lib.Ctx) {
 		c.Observe(k, int64(stats[k]))
 	}
 }
+
+var (
+	sigSeen = map[string]int{}
+	shrunk  int
+)
+
+const shrinkTries = 150
 
 func doCase(c *lib.Ctx, env *caseEnv, items []*Item, v variant, seed int64, stats map[string]int) {
 	cur, _ := json.Marshal(map[string]any{"schema": env.s, "items": items, "variant": v, "case_seed": seed})
@@ -760,10 +824,27 @@ func doCase(c *lib.Ctx, env *caseEnv, items []*Item, v variant, seed int64, stat
 		return
 	}
 	picked := pickFailures(fails)
+	// a systematic defect fails in thousands of cases: only the first witnesses of a
+	// signature are kept by lib, so the others are only counted
+	fresh := false
+	for _, f := range picked {
+		if sigSeen[f.Sig] < 3 {
+			fresh = true
+		}
+		sigSeen[f.Sig]++
+	}
+	if !fresh {
+		for _, f := range picked {
+			c.Violation(f.Sig, f.What, nil)
+		}
+		return
+	}
 	// minimise the configuration (and then the schema) while the same class of failure
-	// persists; cheap, only on a failure
+	// persists; only for the first few failures of a shard (each costs up to shrinkTries
+	// re-evaluations)
 	s2, it2 := env.s, items
-	if !strings.HasPrefix(picked[0].Sig, "harness-panic") && v.Class == "valid" {
+	if !strings.HasPrefix(picked[0].Sig, "harness-panic") && v.Class == "valid" && shrunk < 4 {
+		shrunk++
 		// (an invalid variant is not shrunk: removing the faulty item would "preserve" an
 		// accepted-invalid failure trivially)
 		s2, it2 = shrink(env.s, items, v, seed, sigSet(picked))
